@@ -47,6 +47,8 @@ theorem enabledP_mem_allEvents (p : Abs) (s : Sys) (e : Event) (h : enabledP p s
   | dilate x => exact mem_side (by cases x <;> decide)
   | deliver x => exact mem_side (by cases x <;> decide)
   | connect x => exact mem_side (by cases x <;> decide)
+  | dial x => exact mem_side (by cases x <;> decide)
+  | cut x => simp [enabledP] at h
   | turn1 x => exact mem_side (by cases x <;> decide)
   | sigrec x => exact mem_side (by cases x <;> decide)
   | write x => exact mem_side (by cases x <;> decide)
